@@ -46,11 +46,21 @@ def plan(tier, seed):
                 cells.append(('terminate', st, nproc, queued))
     rng.shuffle(cells)
     n_t = 18 if tier == 'quick' else len(cells)
-    for (k, st, nproc, queued) in cells[:n_t]:
+    for n, (k, st, nproc, queued) in enumerate(cells[:n_t]):
         specs.append({'lane': 'real', 'sc': 'terminate', 'timeout': 90, 'params': {
             'worker_state': st, 'nproc': nproc, 'queued': queued,
             'busy': 0 if st == 'idle' else rng.choice([1, nproc]),
-            'threads': True, 'T': 1.0}})
+            'threads': True, 'T': 1.0,
+            # every third pool has recycled workers by the time of the call
+            'maxtasks': 1 if n % 3 == 0 else None,
+            'finished_jobs': 2 if n % 3 else max(2, nproc)}})
+    # the task feeder is busy with one long / lazily produced sequence
+    for feeding, st, nproc in (('lazy_imap', 'idle', 2), ('big_map', 'c_sleep', 2)) if tier == 'quick' \
+            else (('lazy_imap', 'idle', 2), ('big_map', 'c_sleep', 2), ('lazy_imap', 'python', 3),
+                  ('big_map', 'idle', 1), ('lazy_imap', 'c_sleep', 1)):
+        specs.append({'lane': 'real', 'sc': 'terminate', 'timeout': 90, 'params': {
+            'worker_state': st, 'nproc': nproc, 'queued': 0, 'busy': 0 if st == 'idle' else 1,
+            'threads': True, 'T': 1.0, 'feeding': feeding}})
     # without helper threads (the caller is the event loop)
     specs.append({'lane': 'real', 'sc': 'terminate', 'timeout': 70, 'params': {
         'worker_state': 'idle', 'nproc': 2, 'queued': 0, 'busy': 0, 'threads': False, 'T': 1.0}})
@@ -110,6 +120,7 @@ def run_spec(spec, rec):
         raise RuntimeError('scenario error: ' + obs.get('scenario_exception', r['stderr'][-2000:]))
     rec.case()
     attrs = {'lane': 'real', 'scenario': sc, 'worker_state': p.get('worker_state'),
+             'recycled_before': bool(p.get('maxtasks')), 'feeding': p.get('feeding'),
              'source': p.get('source'), 'threads': p.get('threads', True)}
     if sc == 'terminate':
         attrs['idle_workers'] = p['nproc'] - p.get('busy', 0) > 0
@@ -173,8 +184,12 @@ def check_terminate(p, r, obs, ev, attrs, rec):
             if not any(e['wpid'] == pid for e in exits) and p['worker_state'] != 'swallow_base':
                 rec.violation('exit_callback_not_run', dict(attrs, source='terminate'),
                               pid=pid, params=p)
+    if obs.get('replaced_before'):
+        rec.count('real:terminate_with_replaced_workers')
+    if p.get('feeding'):
+        rec.count('real:terminate_while_feeding')
     rec.sig(['terminate', p['worker_state'], p['nproc'], p.get('queued'), p.get('busy'),
-             p.get('threads')])
+             p.get('threads'), bool(obs.get('replaced_before')), p.get('feeding')])
     rec.sample({'scenario': 'terminate', 'params': p, 'terminate_wall': round(obs['terminate_wall'], 2),
                 'exit_callbacks': len(exits)})
 
